@@ -336,6 +336,28 @@ def conversation(run, pv, rng, length, threshold, abrupt, label,
         if bool(getattr(conn, 'spawned', False)) != any(
                 h[0] == 'pos' for h in hist):
             run.violation('play/spawned', 'spawned flag wrong', w)
+        # what the object tells its user after the session has ended
+        if not abrupt:
+            facts = {'connected': conn.connected,
+                     'protocol_version': conn.context.protocol_version,
+                     'address': conn.options.address,
+                     'port': conn.options.port,
+                     'exception': repr(conn.exception) if getattr(
+                         conn, 'exception', None) is not None else None,
+                     'threads': [t for t in (conn.networking_thread,
+                                             conn.new_networking_thread)
+                                 if t is not None and t.is_alive()]}
+            want_facts = {'connected': False, 'protocol_version': pv,
+                          'address': '127.0.0.1', 'port': server.port,
+                          'exception': None, 'threads': []}
+            run.count('post_session_state_checks')
+            if facts != want_facts and not rec.exceptions:
+                run.violation('play/object-state-after-session', 'after a '
+                              'session that the server ended in an orderly '
+                              'way the connection object misreports its '
+                              'state', dict(w, got={k: v for k, v in
+                                                    facts.items() if v !=
+                                                    want_facts[k]}))
         # delivered packets: same order, same kinds
         if play_seen != want_seen:
             first = next((j for j, (a, b) in enumerate(
@@ -843,6 +865,40 @@ def run(run):
         run.case(('flood', i))
         if outcome != 'done':
             run.inconclusive_because('flood %d: %s' % (i, info))
+    # ---- two connection objects at work at the same time ---------------------
+    # (different servers, versions, transport settings; same process, same
+    # classes): each conversation is judged exactly as when it runs alone
+    import random as _random
+    import threading as _threading
+    for i in range(40 if thorough else 6):
+        if not run.mine(i + 2):
+            continue
+        outcomes = {}
+
+        def one(tag, pv_, th_, seed_):
+            r_ = _random.Random(seed_)
+            try:
+                outcomes[tag] = conversation(run, pv_, r_, r_.choice(
+                    (5, 30, 60)), th_, False, 700000 + 2 * i + tag)
+            except Exception as e:
+                outcomes[tag] = ('inconclusive', repr(e))
+        pva, pvb = rng.sample([47, 110, 340, 404, 578, 754, 757], 2)
+        ts = [_threading.Thread(target=one, args=(0, pva, rng.choice(
+                  (None, 64)), rng.getrandbits(32))),
+              _threading.Thread(target=one, args=(1, pvb, rng.choice(
+                  (None, 0)), rng.getrandbits(32)))]
+        for t in ts:
+            t.start()
+        for t in ts:
+            t.join(90.0)
+        run.case(('twin', i, pva, pvb))
+        if any(t.is_alive() for t in ts) or any(
+                outcomes.get(k, ('x',))[0] != 'done' for k in (0, 1)):
+            run.inconclusive_because('twin sessions %d: %r' % (
+                i, {k: str(v)[:200] for k, v in outcomes.items()}))
+        else:
+            run.count('conversations.twin_pairs')
+    run.require('conversations.twin_pairs', 2)
     # ---- what ended sessions still hold -------------------------------------
     gc.collect()
     time.sleep(0.1)
